@@ -18,9 +18,11 @@ TCHAR = set("!#$%&'*+-.^_`|~0123456789abcdefghijklmnopqrstuvwxyzABCDEFGHIJKLMNOP
 RFC3986 = set("ABCDEFGHIJKLMNOPQRSTUVWXYZabcdefghijklmnopqrstuvwxyz0123456789-._~!$&'()*+,;=:@/?")
 
 
-def _bytes_probe(pattern):
+def _bytes_probe(pattern, flags=0):
     """Pattern (bytes) -> parsed with chr-based probe (bytes patterns are latin-1 one-to-one)."""
-    return rx.parse(pattern.decode("latin-1") if isinstance(pattern, bytes) else pattern)
+    import re as _re
+    fl = int(flags or 0) & ~int(_re.UNICODE)
+    return rx.parse(pattern.decode("latin-1") if isinstance(pattern, bytes) else pattern, fl)
 
 
 def run(ctx):
@@ -31,35 +33,66 @@ def run(ctx):
 
     # ------------------------------------------------------------------ R1 method gate
     R1 = ctx.rule("C10-R1", "method gate: HTTPConnection.putrequest tests the method against a pattern whose accepted characters are RFC 7230 token characters (no CTL, SP, ':') before delegating to the stdlib putrequest, which validates the target", "E3 + E7")
+    import re as _re
+    from ..rows import GenRule, effect_rows, helper_closure
+    from ..terms import K, T, destruct, subterms
+    from . import reqrows
+
     pr = m.method(HC, "putrequest")
-    rexv = fold.need(CN, "_CONTAINS_CONTROL_CHAR_RE")
+    rows1 = effect_rows(ctx, pr, GenRule(ctx, pr.module, inline=set(helper_closure(m, [pr])) - {pr.qual}), HC)
+    ctx.sites(R1, len(rows1), 2, "rows of putrequest")
+    p0 = f"p:{pr.params()[0]}"
+    # the guard: some fact about <pattern>.<method>(p:method)
+    guards = {}
+    for r in rows1:
+        for sym in r.st.facts:
+            mt = _re.fullmatch(r"rx:(\w+)\.(search|match|fullmatch)\((.*)\)", sym)
+            if mt:
+                guards[sym] = mt.groups()
+    if len(guards) > 1:
+        raise AnalysisError(f"C10-R1: putrequest decides on {sorted(guards)}: expected exactly one pattern test of the method (idiom not recognised)")
+    if not guards:
+        ctx.ob(R1, pr.qual, "the method is tested against the token pattern before the request line is produced", False,
+               "no pattern test of the method decides any path of putrequest: the method is written without the token check", node=pr.node)
+        guards = {"<none>": ("", "", "")}
+    gsym, (rname, how, arg) = next(iter(guards.items()))
+    ctx.ob(R1, pr.qual, f"the whole method string is tested: {gsym}", arg == p0, "" if arg == p0 else "the pattern is applied to something else than the method", node=pr.node)
+    rexv = fold.need(CN, rname) if rname else Regex("[^\\x00-\\U0010ffff]", 0)
     if not isinstance(rexv, Regex):
-        raise AnalysisError("_CONTAINS_CONTROL_CHAR_RE is not a compiled pattern")
+        raise AnalysisError(f"{rname} is not a compiled pattern")
     p = list(rx.parse(rexv.pattern, rexv.flags))
-    ok = len(p) == 1 and p[0][0] is sc.IN and any(op is sc.NEGATE for op, _ in p[0][1])
-    allowed = rx.PROBE_SET - rx.class_set(p[0][1]) if ok else set()
-    ctx.ob(R1, CN, "method pattern is a single negated class (search finds any forbidden character)", ok, rexv.pattern)
+    neg_class = len(p) == 1 and p[0][0] is sc.IN and any(op is sc.NEGATE for op, _ in p[0][1])
+    pos_class = len(p) == 1 and p[0][0] in (sc.MAX_REPEAT, sc.MIN_REPEAT) and len(p[0][1][2]) == 1 and p[0][1][2][0][0] is sc.IN and not any(op is sc.NEGATE for op, _ in p[0][1][2][0][1])
+    if neg_class and how == "search":
+        allowed, raise_when = rx.PROBE_SET - rx.class_set(p[0][1]), True     # a hit anywhere = a forbidden character
+    elif pos_class and how == "fullmatch":
+        allowed, raise_when = rx.class_set(p[0][1][2][0][1]), False           # no full match = a forbidden character
+    elif (neg_class and how in ("match", "fullmatch")) or (pos_class and how in ("match", "search")) or not rname:
+        # the test constrains one position only (or nothing): every character may appear elsewhere in the method
+        allowed, raise_when = set(rx.PROBE_SET), bool(neg_class)
+    else:
+        raise AnalysisError(f"C10-R1: method guard `{rexv.pattern}` used with {how}(): neither `search` of a negated class nor `fullmatch` of a repeated class (idiom not recognised)")
     bad = sorted(allowed - TCHAR)
-    ctx.ob(R1, CN, "characters the method may contain are token characters only", ok and not bad, f"also accepts {bad[:8]}" if bad else "")
+    ctx.ob(R1, CN, "characters the method may contain are token characters only", not bad, f"also accepts {bad[:8]}" if bad else "")
     for ch, nm in ((" ", "SP"), ("\r", "CR"), ("\n", "LF"), ("\x00", "NUL"), (":", "colon"), ("\t", "HTAB"), ("\xe9", "non-ASCII")):
         ctx.ob(R1, CN, f"method cannot contain {nm}", ch not in allowed)
-    uses = [c for c in astq.calls(pr.node) if isinstance(c.func, ast.Attribute) and astq.text(c.func.value) == "_CONTAINS_CONTROL_CHAR_RE"]
-    ok = bool(uses) and uses[0].func.attr == "search" and astq.text(uses[0].args[0]) == pr.params()[0]
-    ctx.ob(R1, pr.qual, "the whole method string is searched for a forbidden character", ok, astq.text(uses[0]) if uses else "no use of the pattern", node=pr.node)
-    # the test dominates the delegation: if match: raise ; then super().putrequest
-    deleg = [c for c in astq.calls(pr.node) if astq.call_text(c) == "super().putrequest"]
-    ctx.sites(R1, len(deleg), 1, "delegation to the stdlib putrequest")
-    guards = [n for n in astq.walk_fn(pr.node) if isinstance(n, ast.If) and astq.all_paths_end_in(n.body, lambda s: isinstance(s, ast.Raise))]
-    dom = False
-    for g in guards:
-        srcs = astq.sources_of(pr.node, g.test)
-        if any(isinstance(s, ast.Call) and isinstance(s.func, ast.Attribute) and astq.text(s.func.value) == "_CONTAINS_CONTROL_CHAR_RE" for s in srcs):
-            dom = all(g.lineno < d.lineno and astq.enclosing(d, ast.If) is None for d in deleg)
-    ctx.ob(R1, pr.qual, "a forbidden character raises before the request line is produced", dom,
-           "" if dom else "the method is written without (or before) the token check", node=pr.node)
-    for d in deleg:
-        ok = len(d.args) >= 2 and astq.text(d.args[0]) == "method" and astq.text(d.args[1]) == "url"
-        ctx.ob(R1, pr.qual, "delegates (method, url) unchanged", ok, astq.text(d), node=d)
+    n_del = 0
+    for r in rows1:
+        hit = r.truth(gsym)
+        if hit is None and r.is_none(gsym) is not None:
+            hit = not r.is_none(gsym)
+        delegs = [e for e in r.events("call") if e[1] == "super.putrequest"]
+        forbidden_found = (hit is True) if raise_when else (hit is False)
+        if forbidden_found or hit is None:
+            ok = not r.returns and not delegs
+            ctx.ob(R1, pr.qual, f"guard says a non-token character is present (or undecided: {hit}) -> {r.out}", ok,
+                   "" if ok else "the method is written without (or before) the token check", witness=r.witness(), node=pr.node)
+        else:
+            n_del += len(delegs)
+            args = [a_ for a_ in delegs[0][2:] if isinstance(a_, str)] if delegs else []
+            ok = len(delegs) == 1 and args[:2] == [p0, f"p:{pr.params()[1]}"] and r.returns
+            ctx.ob(R1, pr.qual, f"token-only method: delegates ({', '.join(args[:2])}) unchanged, once", ok, str(args)[:120], witness=r.witness(), node=pr.node)
+    ctx.sites(R1, n_del, 1, "delegation to the stdlib putrequest on rows")
     sp = m.find_method("http.client.HTTPConnection", "putrequest")
     if sp is None:
         raise AnalysisError("stdlib putrequest not found")
@@ -92,36 +125,77 @@ def run(ctx):
             if ch in v:
                 ctx.ob(R2, URL, f"{name} excludes {nm}", False, f"{nm} would pass through the encoder unescaped")
     enc = m.func(f"{URL}._encode_invalid_chars")
-    appends = []
-    outs_ = set(astq.assigned_from(enc.node, lambda v: isinstance(v, ast.Call) and astq.call_text(v) == "bytearray"))
-    for n in astq.walk_fn(enc.node):
-        if isinstance(n, ast.AugAssign) and astq.text(n.target) in outs_:
-            appends.append(("raw", n))
-        if isinstance(n, ast.Call) and isinstance(n.func, ast.Attribute) and n.func.attr in ("extend", "append") and astq.text(n.func.value) in outs_:
-            appends.append(("ext", n))
-    ctx.sites(R2, len(appends), 2, "writes to the encoder's output")
-    for kind, n in appends:
-        if kind == "raw":
-            g = astq.enclosing(n, ast.If)
-            t = astq.itext(enc.node, g.test).replace('"', "'") if g is not None else ""
-            val = astq.itext(enc.node, n.value)
-            disj = [astq.itext(enc.node, v).replace('"', "'") for v in g.test.values] if g is not None and isinstance(g.test, ast.BoolOp) and isinstance(g.test.op, ast.Or) else []
-            ok = len(disj) == 2 and any(d.endswith("== b'%'") and "count(b'%')" in d for d in disj) \
-                and any(d.startswith("ord(") and "< 128 and" in d and d.endswith(".decode() in allowed_chars") for d in disj)
-            # the byte kept is the byte tested
-            ok = ok and all(val in d for d in disj)
-            ctx.ob(R2, enc.qual, f"raw byte kept only if allowed ASCII or '%' of a fully percent-encoded component", ok, t[:160], node=n)
-        else:
-            a = astq.itext(enc.node, n.args[0]).replace('"', "'")
-            ok = a.startswith("b'%' + ") and "hex(ord(" in a and ".zfill(2)" in a
-            ctx.ob(R2, enc.qual, f"everything else is written as %XX", ok, a[:100], node=n)
+    rows_e = [r for r in effect_rows(ctx, enc, GenRule(ctx, enc.module), None, budget=900000) if r.returns]
+    ctx.sites(R2, len(rows_e), 4, "rows of the encoder")
+    ALLOWED = f"p:{enc.params()[1]}"
+    n_raw = n_esc = 0
+    seen_e = set()
+    for r in rows_e:
+        # the byte under consideration on this row: the operand of `<byte>.decode() in allowed_chars` / `<byte> == b'%'`
+        cands = set()
+        for k_, v_ in r.st.ts.items():
+            if isinstance(k_, tuple) and len(k_) == 4 and k_[0] == "cmp":
+                if k_[2] == "in" and k_[3] == ALLOWED and destruct(k_[1])[0] == "decode":
+                    cands.add(destruct(k_[1])[1][0])
+                if k_[2] == "==" and k_[3] == K(b"%"):
+                    cands.add(k_[1])
+                if k_[2] == "<" and k_[3] == "128" and destruct(k_[1])[0] == "ord":
+                    cands.add(destruct(k_[1])[1][0])
+        kept = [t_ for t_ in subterms(r.ret or "") if destruct(t_)[0] == "add" and destruct(t_)[1][0] == T("bytearray")]
+        exts = [e_ for e_ in r.events("call") if e_[1] in (f"{T('bytearray')}.extend", f"{T('bytearray')}.append")]
+        if not kept and not exts:
+            continue
+        if len(cands) != 1:
+            raise AnalysisError(f"C10-R2: encoder row tests {sorted(cands)}: cannot identify the byte under consideration (idiom not recognised)")
+        B = next(iter(cands))
+        in_allowed = r.cmp(T("decode", B), "in", ALLOWED)
+        ascii_ = r.cmp(T("ord", B), "<", "128")
+        is_pct = r.cmp(B, "==", K(b"%"))
+        pct_enc = None
+        for k_, v_ in r.st.ts.items():
+            if isinstance(k_, tuple) and len(k_) == 4 and k_[0] == "cmp" and k_[2] == "==" and destruct(k_[3])[0] == "count" and destruct(k_[3])[1][-1] == K(b"%"):
+                pct_enc = v_
+        for t_ in kept:
+            n_raw += 1
+            what = destruct(t_)[1][1]
+            ok = what == B and ((ascii_ is True and in_allowed is True) or (is_pct is True and pct_enc is True))
+            key = ("raw", ok, ascii_, in_allowed, is_pct, pct_enc)
+            if key not in seen_e:
+                seen_e.add(key)
+                ctx.ob(R2, enc.qual, f"raw byte kept with ascii={ascii_} allowed={in_allowed} is-%={is_pct} component-fully-percent-encoded={pct_enc}", ok,
+                       "" if ok else "a byte outside the allowed set reaches the output unescaped", witness=r.witness(), node=enc.node)
+        for e_ in exts:
+            n_esc += 1
+            a_ = [x for x in e_[2:] if isinstance(x, str)]
+            st_ = set(subterms(a_[0])) if a_ else set()
+            ok = bool(a_) and destruct(a_[0])[0] == "add" and destruct(a_[0])[1][0] == K(b"%") and T("hex", T("ord", B)) in st_ and any(destruct(x)[0] == "zfill" and destruct(x)[1][-1] == "2" for x in st_)
+            key = ("esc", ok)
+            if key not in seen_e:
+                seen_e.add(key)
+                ctx.ob(R2, enc.qual, "everything else is written as %XX of the byte", ok, (a_[0][:100] if a_ else ""), witness=r.witness(), node=enc.node)
+    ctx.sites(R2, n_raw, 1, "raw-byte writes on encoder rows")
+    ctx.sites(R2, n_esc, 1, "escaped writes on encoder rows")
     et = m.func(f"{URL}._encode_target")
-    txt = astq.text(et.node)
-    encs = [c for c in astq.calls(et.node) if astq.call_text(c) == "_encode_invalid_chars" and len(c.args) == 2]
-    sets_used = sorted(astq.text(c.args[1]) for c in encs)
-    from_groups = all(any("groups()" in astq.text(x) for x in astq.sources_of(et.node, c.args[0])) for c in encs)
-    ok = sets_used == ["_PATH_CHARS", "_QUERY_CHARS"] and from_groups
-    ctx.ob(R2, et.qual, "_encode_target encodes path and query with the path/query sets", ok, f"{sets_used}")
+    rows_t = [r for r in effect_rows(ctx, et, GenRule(ctx, et.module), None) if r.returns]
+    ctx.sites(R2, len(rows_t), 2, "returning rows of _encode_target")
+    for r in rows_t:
+        calls = [[a_ for a_ in e_[2:] if isinstance(a_, str)] for e_ in r.events("call") if e_[1] == "_encode_invalid_chars"]
+        sets_used = [c_[1] for c_ in calls if len(c_) == 2]
+        # every encoded piece is a capture group of the match of the target; the result is built from encoded pieces and '?' only
+        def is_group(t_):
+            o_, a_ = destruct(t_)
+            if o_ == "idx" and destruct(a_[0])[0].endswith(".groups"):
+                return True
+            return o_.endswith(".group") if o_ else False
+        from_groups = all(is_group(c_[0]) for c_ in calls)
+        from ..terms import norm
+        parts = destruct(norm(r.ret))
+        pieces = list(parts[1]) if parts[0] == "cat" else [norm(r.ret)]
+        enc_terms = {norm(T("_encode_invalid_chars", *c_)) for c_ in calls}
+        ok_build = all(pc in enc_terms or pc == K("?") for pc in pieces)
+        ok = sets_used in (["g:_PATH_CHARS"], ["g:_PATH_CHARS", "g:_QUERY_CHARS"]) and from_groups and ok_build and len(pieces) == (1 if len(calls) == 1 else 3)
+        ctx.ob(R2, et.qual, f"_encode_target = encoded path [+ '?' + encoded query] with the path/query sets ({sets_used})", ok,
+               "" if ok else f"result {r.ret[:120]}: a part of the target reaches the request line unencoded", witness=r.witness(), node=et.node)
     tr = fold.need(URL, "_TARGET_RE")
     gp = rx.groups(rx.parse(tr.pattern, tr.flags))
     ctx.ob(R2, URL, "_TARGET_RE drops the fragment (no capturing group after '#')", len(gp) == 2 and "(?:#.*)?" in tr.pattern, tr.pattern)
@@ -129,37 +203,46 @@ def run(ctx):
     # ------------------------------------------------------------------ R3 headers through the validating primitive
     R3 = ctx.rule("C10-R3", "headers go through the validating primitive: in HTTPConnection.request header lines are produced only by self.putheader and the request line only by self.putrequest; the putheader override delegates every non-skipped value to the stdlib putheader, which validates name and value", "E8")
     rq = m.method(HC, "request")
-    writers = {}
-    for c in astq.calls(rq.node):
-        t = astq.call_text(c)
-        if t.startswith("self.") and t.split(".")[1] in ("putheader", "putrequest", "endheaders", "send", "_send_output", "_output", "_send_request"):
-            writers.setdefault(t, []).append(c)
-        if ".sendall" in t or t.endswith("sock.send") or t.startswith("self._buffer") or t == "self._output":
-            writers.setdefault(t, []).append(c)
-    ok = set(writers) <= {"self.putheader", "self.putrequest", "self.endheaders", "self.send"}
-    ctx.ob(R3, rq.qual, f"output primitives used: {sorted(writers)}", ok, "" if ok else "the request writes bytes through something other than putrequest/putheader/endheaders/send", node=rq.node)
-    ctx.sites(R3, len(writers.get("self.putheader", [])), 3, "putheader calls in request")
-    hl = [c for c in writers.get("self.putheader", []) if astq.enclosing(c, ast.For) is not None]
-    loop_ = astq.enclosing(hl[0], ast.For) if hl else None
-    ok = bool(hl) and astq.text(loop_.iter) == "headers.items()" and isinstance(loop_.target, ast.Tuple) \
-        and [astq.text(a) for a in hl[0].args] == [astq.text(e) for e in loop_.target.elts]
-    ctx.ob(R3, rq.qual, "every caller header (name, value) goes through putheader", ok, node=rq.node)
+    R4 = ctx.rule("C10-R4", "nothing but the framing code writes to the socket: in connection.py (live code on this interpreter) no sock.sendall/send with a caller-derived operand; body bytes go through self.send after endheaders()", "E8 + E10 rows of request()")
+    R5 = ctx.rule("C10-R5", "automatic headers: Host / Accept-Encoding are suppressed exactly when the caller supplied them (case-insensitively), User-Agent is added exactly when absent; only the three skippable headers accept the SKIP_HEADER sentinel", "E10 rows of request() and putheader()")
+    reqrows.check_output_discipline(ctx, R3, R4, R5)
     ph = m.method(HC, "putheader")
-    deleg = [c for c in astq.calls(ph.node) if astq.call_text(c) == "super().putheader"]
-    ctx.sites(R3, len(deleg), 1, "delegation in putheader")
-    for d in deleg:
-        ok = astq.text(d.args[0]) == "header" and isinstance(d.args[1], ast.Starred) and astq.text(d.args[1].value) == "values"
-        ctx.ob(R3, ph.qual, "delegates (header, *values) unchanged", ok, astq.text(d), node=d)
-        g = astq.enclosing(d, ast.If)
-        ok = g is not None and "SKIP_HEADER" in astq.text(g.test) and astq.text(g.test).startswith("not any(")
-        ctx.ob(R3, ph.qual, "every value that is not the SKIP_HEADER sentinel is delegated", ok, astq.text(g.test) if g is not None else "", node=d)
+    SKIP = fold.need("urllib3.util.request", "SKIP_HEADER")
+    sk = fold.need("urllib3.util.request", "SKIPPABLE_HEADERS")
+    ctx.ob(R5, "urllib3.util.request", f"SKIPPABLE_HEADERS == accept-encoding, host, user-agent", set(sk) == {"accept-encoding", "host", "user-agent"}, str(sorted(sk)))
+    rows_h = effect_rows(ctx, ph, GenRule(ctx, ph.module, inline=set(helper_closure(m, [ph])) - {ph.qual}), HC)
+    ctx.sites(R3, len(rows_h), 3, "rows of putheader")
+    VALS = "p:*" + (ph.node.args.vararg.arg if ph.node.args.vararg else "values")
+    n_del = 0
+    for r in rows_h:
+        skip_seen = any(r.cmp(T(q_, VALS), "==", K(SKIP)) is True for q_ in ("some", "each"))
+        delegs = [[a_ for a_ in e_[2:] if isinstance(a_, str)] for e_ in r.events("call") if e_[1] == "super.putheader"]
+        if not skip_seen:
+            n_del += len(delegs)
+            ok = len(delegs) == 1 and delegs[0] == [f"p:{ph.params()[0]}", f"*={VALS}"] and r.returns
+            ctx.ob(R3, ph.qual, "every value that is not the SKIP_HEADER sentinel is delegated (header, *values) unchanged", ok,
+                   "" if ok else f"without a sentinel: {r.out}, delegations {delegs}: the header bypasses the validating stdlib primitive or is dropped", witness=r.witness(), node=ph.node)
+        else:
+            member = None
+            for k_, v_ in r.st.ts.items():
+                if isinstance(k_, tuple) and len(k_) == 4 and k_[0] == "cmp" and k_[2] == "in" and destruct(k_[3]) == ("const", frozenset(sk)):
+                    member = (k_[1], v_)
+            lowered = member is not None and T("lower", f"p:{ph.params()[0]}") in subterms(member[0])
+            if member is None or not lowered:
+                ctx.ob(R5, ph.qual, "with the sentinel the (lower-cased) header name is looked up in SKIPPABLE_HEADERS", False, f"lookup {member}", witness=r.witness(), node=ph.node)
+            elif member[1] is True:
+                ok = r.returns and not delegs
+                ctx.ob(R5, ph.qual, "SKIP_HEADER on a skippable header emits nothing", ok, "" if ok else f"{r.out}, delegations {delegs}", witness=r.witness(), node=ph.node)
+            else:
+                ok = not r.returns and not delegs
+                ctx.ob(R5, ph.qual, "SKIP_HEADER on any other header raises", ok, "" if ok else f"{r.out}: the sentinel string would be accepted (and the header silently dropped or sent) for arbitrary headers", witness=r.witness(), node=ph.node)
+    ctx.sites(R3, n_del, 1, "delegations in putheader rows")
     sph = m.find_method("http.client.HTTPConnection", "putheader")
     stxt = astq.text(sph.node) if sph is not None else ""
     ctx.ob(R3, "http.client.HTTPConnection.putheader", "stdlib putheader validates header name and value (source fact)",
            "_is_legal_header_name(header)" in stxt and "_is_illegal_header_value(" in stxt)
 
-    # ------------------------------------------------------------------ R4 who writes to the socket
-    R4 = ctx.rule("C10-R4", "nothing but the framing code writes to the socket: in connection.py (live code on this interpreter) no sock.sendall/send with a caller-derived operand; body bytes go through self.send after endheaders()", "E8")
+    # ------------------------------------------------------------------ R4 who writes to the socket (raw writes; the order of body bytes is decided on the rows above)
     n = 0
     for f in m.repo_funcs():
         if f.module != CN:
@@ -172,42 +255,15 @@ def run(ctx):
                 n += 1
                 ctx.ob(R4, f.qual, f"`{astq.text(c)[:60]}`", False, "raw socket write outside http.client's buffered output", node=c)
     ctx.ob(R4, CN, "no raw socket write in connection.py", n == 0)
-    sends = writers.get("self.send", [])
-    eh = writers.get("self.endheaders", [])
-    ok = bool(eh) and all(s.lineno > eh[0].lineno for s in sends) and len(eh) == 1
-    ctx.ob(R4, rq.qual, "body bytes are sent only after endheaders()", ok, node=rq.node)
     pruned = [x for x in m.pruned if x[0] == CN]
     ctx.extra["pruned_connection_blocks"] = [f"{a}:{b} {c}" for a, b, c in pruned]
-
-    # ------------------------------------------------------------------ R5 automatic headers
-    R5 = ctx.rule("C10-R5", "automatic headers: Host / Accept-Encoding are suppressed exactly when the caller supplied them (case-insensitively), User-Agent is added exactly when absent; only the three skippable headers accept the SKIP_HEADER sentinel", "E5 on request")
-    txt = astq.text(rq.node)
-    keyset = "frozenset((to_str(k.lower()) for k in headers))"
-    prc = writers.get("self.putrequest", [])
-    sh = astq.itext(rq.node, astq.kwarg(prc[0], "skip_host")) if prc and astq.kwarg(prc[0], "skip_host") is not None else ""
-    sa_ = astq.itext(rq.node, astq.kwarg(prc[0], "skip_accept_encoding")) if prc and astq.kwarg(prc[0], "skip_accept_encoding") is not None else ""
-    ok = keyset in sh and keyset in sa_
-    ctx.ob(R5, rq.qual, "caller header names are lower-cased for the presence tests", ok, sh[:120])
-    ok = sh == f"'host' in {keyset}" and sa_ == f"'accept-encoding' in {keyset}"
-    ctx.ob(R5, rq.qual, "skip flags are presence of host / accept-encoding among the caller's headers", ok, f"{sh} | {sa_}"[:200])
-    ok = len(prc) == 1 and [astq.text(a) for a in prc[0].args] == ["method", "url"]
-    ctx.ob(R5, rq.qual, "putrequest(method, url, skip flags) - one request line", ok)
-    ua = [c for c in writers.get("self.putheader", []) if c.args and isinstance(c.args[0], ast.Constant) and c.args[0].value == "User-Agent"]
-    ok = len(ua) == 1 and astq.enclosing(ua[0], ast.If) is not None and astq.itext(rq.node, astq.enclosing(ua[0], ast.If).test) == f"'user-agent' not in {keyset}"
-    ctx.ob(R5, rq.qual, "default User-Agent iff the caller gave none", ok)
-    sk = fold.need("urllib3.util.request", "SKIPPABLE_HEADERS")
-    ctx.ob(R5, "urllib3.util.request", f"SKIPPABLE_HEADERS == accept-encoding, host, user-agent", set(sk) == {"accept-encoding", "host", "user-agent"}, str(sorted(sk)))
-    el = [n_ for n_ in astq.walk_fn(ph.node) if isinstance(n_, ast.If) and isinstance(n_.test, ast.Compare) and len(n_.test.ops) == 1
-          and isinstance(n_.test.ops[0], ast.NotIn) and astq.text(n_.test.comparators[0]) == "SKIPPABLE_HEADERS" and "lower()" in astq.text(n_.test.left)]
-    ok = bool(el) and astq.all_paths_end_in(el[0].body, lambda s: isinstance(s, ast.Raise))
-    ctx.ob(R5, ph.qual, "SKIP_HEADER on any other header raises", ok)
 
     # ------------------------------------------------------------------ R6 HTTP/2 validators
     R6 = ctx.rule("C10-R6", "HTTP/2: the name pattern accepts only lower-case token characters and is anchored so that no trailing newline passes; the value pattern rejects NUL, CR, LF anywhere and leading/trailing SP/HTAB; both checks dominate the append to the header list", "E7 + E3")
     if H2 in m.modules:
         nm = fold.need(H2, "RE_IS_LEGAL_HEADER_NAME")
         pv = fold.need(H2, "RE_IS_ILLEGAL_HEADER_VALUE")
-        p = _bytes_probe(nm.pattern)
+        p = _bytes_probe(nm.pattern, nm.flags)
         ea = rx.end_anchor(p)
         fn = m.func(f"{H2}._is_legal_header_name")
         how = [c.func.attr for c in astq.calls(fn.node) if isinstance(c.func, ast.Attribute) and astq.text(c.func.value) == "RE_IS_LEGAL_HEADER_NAME"]
@@ -219,7 +275,7 @@ def run(ctx):
         lower_tchar = {c for c in TCHAR if not c.isupper()}
         badc = sorted(chars - lower_tchar)
         ctx.ob(R6, H2, "name characters are lower-case token characters", not badc, f"also accepts {badc[:8]}" if badc else "")
-        pvp = _bytes_probe(pv.pattern)
+        pvp = _bytes_probe(pv.pattern, pv.flags)
         # alternatives: anywhere-class, leading class, trailing class
         br = [av for op, av in pvp if op is sc.BRANCH]
         alts = br[0][1] if br else [pvp]
